@@ -148,6 +148,17 @@ MUTANTS = [
     M("c16-composite-caches-leaf-values", "C16", (OB, "    def apply(self, nn_state, samples):\n        return self.left * self.right.apply(nn_state, samples)", "    def apply(self, nn_state, samples):\n        if getattr(self, \"_cache\", None) is None or self._cache[0] != tuple(samples.shape):\n            self._cache = (tuple(samples.shape), self.right.apply(nn_state, samples))\n        return self.left * self._cache[1]")),
     M("c08-observable-caches-denominator", "C08", (PA, "        denom = nn_state.importance_sampling_denominator(samples)\n        numer_sum = torch.zeros_like(denom)\n\n        for i in range(samples.shape[-1]):  # sum over spin sites\n            samples_ = flip_spin(i, samples.clone())  # flip the spin at site i\n\n            # compute the numerator of the importance and add it to the running sum\n            numer = nn_state.importance_sampling_numerator(samples_, samples)\n            numer_sum.add_(numer)",
                                                    "        if getattr(self, \"_den\", None) is None or self._den[0] != tuple(samples.shape):\n            self._den = (tuple(samples.shape), nn_state.importance_sampling_denominator(samples))\n        denom = self._den[1]\n        numer_sum = torch.zeros_like(denom)\n\n        for i in range(samples.shape[-1]):  # sum over spin sites\n            samples_ = flip_spin(i, samples.clone())  # flip the spin at site i\n\n            # compute the numerator of the importance and add it to the running sum\n            numer = nn_state.importance_sampling_numerator(samples_, samples)\n            numer_sum.add_(numer)")),
+    # ---- single-precision slips (sensitivity of the tolerances)
+    M("f32-amplitude", "C01", (WF, "return (-self.rbm_am.effective_energy(v)).exp().sqrt()", "return (-self.rbm_am.effective_energy(v)).exp().sqrt().float().double()")),
+    M("f32-pi-real", "C02", (DM, "        return cplx.make_complex(real, imag)\n\n    def pi_grad", "        return cplx.make_complex(real.float().double(), imag)\n\n    def pi_grad")),
+    M("f32-energy-gradient", ["C03", "C06"], (BR, "            hb_grad = -torch.sum(prob, 0)\n            return parameters_to_vector", "            hb_grad = -torch.sum(prob.float().double(), 0)\n            return parameters_to_vector")),
+    M("f32-conditional", "C05", (BR, "            torch.matmul(h, self.weights.data, out=out)\n            .add_(self.visible_bias.data)\n            .sigmoid_()", "            torch.matmul(h, self.weights.data.float().double(), out=out)\n            .add_(self.visible_bias.data)\n            .sigmoid_()")),
+    M("f32-sigmax", "C08", (PA, "        numer_sum = cplx.elementwise_division(numer_sum, denom)\n\n        # take real part (imaginary part should be approximately zero)\n        # and divide by number of spins\n        res = cplx.real(numer_sum).div_(samples.shape[-1])\n        if self.absolute:\n            return res.abs_()\n        else:\n            return res\n\n\nclass SigmaY",
+                            "        numer_sum = cplx.elementwise_division(numer_sum, denom)\n\n        # take real part (imaginary part should be approximately zero)\n        # and divide by number of spins\n        res = cplx.real(numer_sum).float().double().div_(samples.shape[-1])\n        if self.absolute:\n            return res.abs_()\n        else:\n            return res\n\n\nclass SigmaY")),
+    M("f32-swap-weight", "C09", (EN, "        return cplx.real(weight)", "        return cplx.real(weight).float().double()")),
+    M("f32-fidelity-psi", "C10", (TS, "        psi = nn_state.psi(space) / Z.sqrt()", "        psi = (nn_state.psi(space) / Z.sqrt()).float().double()")),
+    M("f32-statistics-mean", "C13", (OB, "        variance, mean = variance.item(), mean.item()", "        variance, mean = variance.item(), mean.float().item()")),
+    M("f32-rotation", "C04", (UN, "    Upsi_v = cplx.make_complex(Ut).to(dtype=torch.double, device=nn_state.device)", "    Upsi_v = cplx.make_complex(Ut).to(dtype=torch.float, device=nn_state.device).double()")),
     # ---- C12
     M("c12-break-before-batch-end", "C12", (NS, "                callbacks.on_batch_end(self, ep, b)\n                if self.stop_training:  # check for stop_training signal\n                    break",
                                             "                if self.stop_training:  # check for stop_training signal\n                    break\n                callbacks.on_batch_end(self, ep, b)")),
